@@ -58,6 +58,7 @@ TReset ==
   /\ highest' = -1 /\ catchUp' = FALSE /\ poll' = IdlePoll /\ polls' = 0
   /\ curr' = NoReorg /\ revSince' = <<>> /\ seenVers' = {}
   /\ stopping' = FALSE /\ restarts' = 0
+  /\ memo' = {} /\ tainted' = {}
   /\ headsQ' = <<>> /\ reorgQ' = <<>> /\ flags' = {}
 
 TSrc == IsEvent("Src") /\ SrcSet(Ev.chain) /\ Quiet
